@@ -259,7 +259,7 @@ func (pr *Program) Run(pkgPath, fname string, cfg RunConfig) *Report {
 				e.merge(res)
 				e.done()
 				// keep memory bounded: a fresh bank/solver after many terms
-				if len(w.bank.all) > 1_500_000 {
+				if len(w.bank.all) > 150_000 {
 					w.solver.Close()
 					e.mu.Lock()
 					rep.Solver.add(&w.solver.stats)
